@@ -50,6 +50,19 @@ def run(ck):
                       ('{"detection": %s, "true_positives": {}, "true_negatives": []}' % det1, False),
                       ('{"detection": %s, "true_negatives": []}' % det1, False)):
         cases.append({"k": "rt", "id": ck.new_id(), "rule": text, "docs": [D({"f": "x"})], "_null_examples": nul})
+    # a literal `<<` key (YAML's merge key): the crate resolves no merges, so it is an ordinary key for
+    # from_str and from_value alike -- in an example document, as a field of a block, as an identifier
+    mdet = '{"A": {"f": "x"}, "condition": "A"}'
+    for text in ('{"detection": %s, "true_positives": [{"<<": {"f": "x"}, "g": 1}], "true_negatives": [{"<<": {"g": 2}}]}' % mdet,
+                 '{"detection": %s, "true_positives": [{"f": "x", "<<": 3}], "true_negatives": []}' % mdet,
+                 '{"detection": %s, "true_positives": [{"f": "x", "<<": [{"f": "y"}, {"g": 1}]}], "true_negatives": []}' % mdet,
+                 '{"detection": {"A": {"f": "x", "<<": {"g": "y"}}, "condition": "A"}, "true_positives": [], "true_negatives": []}',
+                 '{"detection": {"A": {"f": "x", "<<": "y"}, "condition": "A"}, "true_positives": [], "true_negatives": []}',
+                 '{"detection": {"A": {"f": "x"}, "<<": {"B": {"g": "y"}}, "condition": "A"}, "true_positives": [], "true_negatives": []}',
+                 '{"detection": {"A": {"f": "x"}, "<<": 1, "condition": "A"}, "true_positives": [], "true_negatives": []}',
+                 'detection:\n  A: &a {f: x}\n  B:\n    <<: *a\n    g: y\n  condition: A or B\ntrue_positives:\n- &d {f: x}\n- <<: *d\n  g: y\ntrue_negatives: []\n',
+                 '{"<<": {"true_negatives": []}, "detection": %s, "true_positives": []}' % mdet):
+        cases.append({"k": "rt", "id": ck.new_id(), "rule": text, "docs": [D({"f": "x"}), D({"g": "y"}), D({"f": "x", "g": "y"}), D({})]})
     kfw = []
     for entry, w in rulebase.known_witnesses("C14"):
         if w:
@@ -99,7 +112,8 @@ def run(ck):
                 problems.append("reloading the serialised optimised rule gives other trees than the original text")
         fv = f.get("fromvalue", ["?"])[0]
         if fv != "ok":
-            problems.append("from_str accepts the text but from_value rejects the equivalent value (%s)" % fv)
+            problems.append("from_str accepts the text but from_value rejects the equivalent value (%s)" % fv
+                            if fv != "differs" else "from_value of the equivalent value gives another rule (trees or examples) than from_str of the text")
         if problems:
             if len(direct_failed) < 4:
                 ck.violation({"property": "C14", "kind": "direct", "what": "; ".join(problems), "rule": c["rule"], "crate": impl[c["id"]],
